@@ -24,6 +24,7 @@ type Outcome struct {
 	PanicAt    string
 	API        *openapi.API
 	APIGraph   *node
+	Direct     *Direct
 
 	GenStage string // "ir" (NewGenerator failed) | "write" | "ok" | "" (not run)
 	GenErr   error
